@@ -23,7 +23,7 @@ func init() { register(c14{}) }
 
 func (c14) ID() string { return "C14" }
 func (c14) Rule() string {
-	return "history monitor on the real gts binary (built with hooks H1/H2, scratch HOME/XDG_CACHE_HOME/TMPDIR): for each of the 19 cached subcommands a base invocation a and neighbours a' that differ from a in exactly one thing (each boolean option toggled, each valued option changed, each positional changed, the content of a secondary input changed under the same path, the primary input changed, -F switched); histories over one cache directory: [a,a], [a,a',a], [a',a,a',a], [a -o f, a], [a, a -o f, a], with failing inputs [bad,bad], [bad,good,bad], and [a,b,a,b] where b is another subcommand given a's arguments and input (every ordered pair of subcommands), and [a,a,a -o f,a] on a 2.6 MB three-record FASTA stream for clear, reverse, complement, sort. Oracle: every invocation's (output bytes on stdout or in the -o file, exit status) equals the memoised result of the same command with --no-cache in a pristine environment. The H2 event log must show a real cache hit for every command (else inconclusive); the option table is cross-checked against `gts <cmd> --help`. non-trivial: a history whose neighbour references differ (the changed thing matters on that input) or that contains a real hit; distinct: (argv, input digests, history shape)."
+	return "history monitor on the real gts binary (built with hooks H1/H2, scratch HOME/XDG_CACHE_HOME/TMPDIR): for each of the 19 cached subcommands a base invocation a and neighbours a' that differ from a in exactly one thing (each boolean option toggled, each valued option changed, each positional changed, the content of a secondary input changed under the same path, the primary input changed, -F switched); histories over one cache directory: [a,a], [a,a',a], [a',a,a',a], [a -o f, a], [a, a -o f, a], with failing inputs [bad,bad], [bad,good,bad], and [a,b,a,b] where b is another subcommand given a's arguments and input (every ordered pair of subcommands), and [a,a,a -o f,a] on a 2.6 MB three-record FASTA stream for clear, reverse, complement, sort. Oracle: every invocation's (output bytes on stdout or in the -o file, exit status) equals the memoised result of the same command with --no-cache in a pristine environment. The H2 event log must show a real cache hit for every command (else inconclusive); the option table is cross-checked against `gts <cmd> --help`. non-trivial: a history whose neighbour references differ (the changed thing matters on that input) or that contains a real hit; distinct: (argv, input digests, history shape). Also: a cache directory that takes no new entry (gts-cache linked to /proc/self), and the entry of a multi-MiB output torn as by a killed writer (zeroed header, half of the stored blocks) before the next identical run."
 }
 func (c14) Assumptions() []string {
 	return []string{"the --no-cache run in a pristine environment is the reference (memoised per argv+input digests)", "stderr is not compared", "one gts process at a time per cache directory", "Go toolchain; hooks H1/H2 only observe"}
@@ -36,7 +36,7 @@ func (c14) RequiredBuckets(tier string) []string {
 	for _, k := range c14Commands {
 		out = append(out, "cmd:"+k, "hit:"+k)
 	}
-	out = append(out, "shape:a,b,a,b", "aspect:command", "input:multi-MiB", "input:regular-file-stdin", "output:unwritable", "environment:unusable-TMPDIR", "input:17-MiB", "shape:a,a", "shape:a,a',a", "shape:-o", "shape:bad,bad", "aspect:option", "aspect:positional", "aspect:secondary-input", "aspect:primary-input", "aspect:format", "help-crosscheck")
+	out = append(out, "shape:a,b,a,b", "aspect:command", "input:multi-MiB", "input:regular-file-stdin", "output:unwritable", "environment:unusable-TMPDIR", "environment:cache-directory-takes-no-entries", "entry:torn-by-a-killed-writer", "input:17-MiB", "shape:a,a", "shape:a,a',a", "shape:-o", "shape:bad,bad", "aspect:option", "aspect:positional", "aspect:secondary-input", "aspect:primary-input", "aspect:format", "help-crosscheck")
 	return out
 }
 func (c14) Findings() []fw.Finding { return nil }
@@ -51,6 +51,9 @@ type inv struct {
 	stdinFile bool
 	stdinAt   int
 	env       []string // extra environment entries (override the driver's)
+	// before runs ahead of the invocation in a history (never ahead of the
+	// reference run): something that happened to the cache directory meanwhile.
+	before func(cacheDir string)
 }
 
 func (v inv) withOut(p string) inv { v.out = p; return v }
@@ -82,6 +85,9 @@ func (v inv) String() string {
 	}
 	if len(v.env) > 0 {
 		s += fmt.Sprintf(" env %v", v.env)
+	}
+	if v.before != nil {
+		s += " (after the cache directory was interfered with)"
 	}
 	for n, k := range v.files {
 		s += fmt.Sprintf(" [%s=%s]", n, k)
@@ -488,6 +494,9 @@ func (x *c14run) history(cmd, shape, aspect, what string, hs []inv, nontrivial b
 			return
 		}
 		x.env.TruncTrace()
+		if v.before != nil {
+			v.before(x.env.CacheDir())
+		}
 		got := x.exec(x.env, v, false)
 		hit := false
 		for _, ev := range x.env.ReadTrace() {
@@ -660,6 +669,17 @@ func (m c14) Run(c *fw.Ctx) {
 			notdir.env = []string{"TMPDIR=/dev/null"}
 			x.history(p.name, "a,a", "", "TMPDIR missing / not a directory / fine", []inv{missing, a, notdir, missing, a}, true)
 			c.Bucket("environment:unusable-TMPDIR")
+			// a cache directory that exists but takes no new entry (gts-cache is
+			// a link to a directory nothing can be created in).
+			xdg := filepath.Join(x.env.Root, "xdg-no-entries")
+			os.MkdirAll(xdg, 0755)
+			os.Remove(filepath.Join(xdg, "gts-cache"))
+			if err := os.Symlink("/proc/self", filepath.Join(xdg, "gts-cache")); err == nil {
+				sealed := a
+				sealed.env = []string{"XDG_CACHE_HOME=" + xdg}
+				x.history(p.name, "a,a", "", "cache directory that takes no entries / fine", []inv{sealed, a, sealed}, true)
+				c.Bucket("environment:cache-directory-takes-no-entries")
+			}
 		}
 	}
 	// an input larger than any spool limit one might think of (17 MiB on stdin).
@@ -730,6 +750,25 @@ func (m c14) Run(c *fw.Ctx) {
 		a.stdin = "big.fasta"
 		x.history(p.name, "a,a", "primary-input", "multi-MiB input and output", []inv{a, a, a.withOut("big.out"), a}, true)
 		c.Bucket("input:multi-MiB")
+		// what an identical invocation that died half way through its entry
+		// leaves behind: the placeholder header and the finished blocks of a part
+		// of the body. The next invocations print what they print without it.
+		torn := a
+		torn.before = func(dir string) {
+			ents, _ := os.ReadDir(dir)
+			for _, e := range ents {
+				fn := filepath.Join(dir, e.Name())
+				b, err := os.ReadFile(fn)
+				if err != nil || len(b) < 200 {
+					continue
+				}
+				keep := 60 + (len(b)-60)/2
+				nb := append(make([]byte, 60), b[60:keep]...)
+				os.WriteFile(fn, nb, 0644)
+				c.Bucket("entry:torn-by-a-killed-writer")
+			}
+		}
+		x.history(p.name, "a,a", "primary-input", "multi-MiB output; the entry torn as by a killed writer before the 2nd run", []inv{a, torn, a}, true)
 	}
 	// two different commands given the same arguments and input over one cache
 	// directory: the command itself is part of what an entry answers. (Pairs
